@@ -40,6 +40,9 @@ func BindParams(g *Grammar, params []*modelv1.TagValue) error {
 	if g.paramsBound {
 		return fmt.Errorf("grammar is already bound; parse the query again to bind new parameters")
 	}
+	if g.bindFailed {
+		return fmt.Errorf("a previous bind of this grammar failed and left it partially bound; parse the query again to bind new parameters")
+	}
 	b := &binder{}
 	b.collect(g)
 	if len(b.slots) != len(params) {
@@ -47,9 +50,11 @@ func BindParams(g *Grammar, params []*modelv1.TagValue) error {
 	}
 	for idx, slot := range b.slots {
 		if params[idx].GetValue() == nil {
+			g.bindFailed = true
 			return fmt.Errorf("parameter #%d has no value", idx+1)
 		}
 		if bindErr := slot(params[idx]); bindErr != nil {
+			g.bindFailed = true
 			return fmt.Errorf("failed to bind parameter #%d: %w", idx+1, bindErr)
 		}
 	}
